@@ -67,7 +67,8 @@ add("C15",
     "DESIGN.md 6/C15")
 
 add("C17",
-    "TLC model check of the manager machine (USM.tla: one action per public call, callback log as predicted history variable) + replay of "
+    "TLC model check of the manager machine (USM.tla: one action per public call, callback log as predicted history variable), inductive "
+    "check of its invariants and action properties by TLC over every invariant-satisfying state (MC_USMInd.tla) + replay of "
     "every generated transition and of tlc -simulate behaviours into UnitSystemManager with recording listeners",
     "USM.tla specifies ids, current/null system, template coverage, ownership of mappings and the exact callback log; TLC checks on every "
     "reachable state/transition of the bounded instance that ids are unique, the current system is registered or null, adding while none is "
@@ -76,7 +77,10 @@ add("C17",
     "through one system changes no other. Every generated transition (BFS-shortest history) and thousands of random deep behaviours of the "
     "same specification are replayed on a fresh manager: outcome, ids in order, current, every mapping, template, the callback log and the "
     "caller's own dicts (passed as the same object for the same literal) are compared with the prediction; ConvertToCurrent / "
-    "ConvertScalarToCurrent results are compared on the real default database.",
+    "ConvertScalarToCurrent results are compared on the real default database. The machine also carries the read-only flag of the systems "
+    "(ReadOnlyIsOnlyAFlag) and tracked client objects. MC_USMInd.tla: every state over 2 ids x 2 categories x 2 (quick) / 4 (thorough) units x "
+    "templates x tracked objects x flags that satisfies the state invariants - reachable or not - takes every call once; the invariants hold "
+    "again (they are inductive: they hold after histories of any length) and every action property holds for the step.",
     "Bounded: 3 ids, 2 mutable categories + 1 query-only category, 4 units, 3 mapping literals; depth 4 (quick) / 6 (thorough) model check; "
     "SetCurrent selects registered systems or None; re-selection may notify (the code does).",
     "DESIGN.md 6/C17")
@@ -213,7 +217,10 @@ add("C11",
     "IndexAsScalar) and Curve's SetImage / SetDomain; TLC checks len(values) = dimension >= 2 for every array ever obtained, equal image "
     "and domain lengths, that a rejected call changes nothing and that ChangingIndex differs from its source only at the index where it holds "
     "the supplied amount, over dimensions and lengths 0..4 and chains of 3 (quick) / 4 (thorough) calls. Every transition to depth 2 and a "
-    "1/4 sample of depth 3 (thorough: all) is replayed with seeded container kinds: outcome family, dimension, values, unit, sources unchanged.",
+    "1/4 sample of depth 3 (thorough: all) is replayed with seeded container kinds: outcome family, dimension, values, unit, sources unchanged. "
+    "MC_FixedArrInd.tla adds an inductive check by TLC: every pool of up to two arrays satisfying SizeInvariant and every curve satisfying "
+    "CurveInvariant (reachable or not) takes every call once - the invariants hold again and the action properties hold for the step, i.e. for "
+    "histories of any length.",
     "Bounded; pool of at most 3 arrays.", "DESIGN.md 6/C11")
 add("C19",
     "TLC trace validation (MC_C19.tla: default category computed by TLC from the exported table) of every documented construction form over all "
